@@ -89,6 +89,13 @@ def check_day(o):
         k = o - rd.EPOCH_ORD
         parts += ['YEAR(%d)' % k, 'MONTH(%d)' % k, 'DAY(%d)' % k, 'WEEKDAY(%d,3)' % k]
         want += [d.year, d.month, d.day, wd]
+        # the same serial held as text (a cell formatted as text): digits only are a number, whatever their count
+        parts += ['YEAR("%d")' % k, 'MONTH("%d")' % k, 'DAY("%d")' % k]
+        want += [d.year, d.month, d.day]
+    # components written with leading zeros (as in a date typed 2020-01-05) are the same numbers
+    Z = 'DATE(%04d,%02d,%02d)' % (d.year, d.month, d.day)
+    parts += ['YEAR(%s)' % Z, 'MONTH(%s)' % Z, 'DAY(%s)' % Z]
+    want += [d.year, d.month, d.day]
     f = '{' + ','.join(parts) + '}'
     r = pev(f)
     if r['error'] is not None or not isinstance(r['result'], list) or len(r['result']) != len(want):
